@@ -36,3 +36,20 @@ package format
 //@   modifies nothing
 //@   loop 1
 //@     invariant len(payload) >= 2
+
+// Contract of the interface method: asking a format for its payload type writes nothing (every
+// implementation in the package is checked against it). Callers that iterate over formats
+// (ServerStream.descForDescribe, C20) keep what they know about the description across the call.
+//@ func (f Format) PayloadType
+//@   opt frame-tag=C20
+//@   modifies nothing
+
+// The rtpmap / fmtp text returned for a payload type comes from an attribute whose own payload
+// type token - the text before the first space of the trimmed value - DENOTES that number
+// ("96" is for 96, never for 9), and is everything after that first space (atou, strbefore,
+// strafter, strtrim: specs/lib.spec). This is what makes formats with equal rtpmap and parameters
+// come back from the SDP the library wrote, whatever other payload types the media carries.
+//@ func getFormatAttribute
+//@   opt safety-tag=C05
+//@   ensures[C05] ret != "" ==> exists i :: 0 <= i && i < len(attributes) && attributes[i].Key == key && atou(strbefore(strtrim(attributes[i].Value), " "), 10) == int(payloadType) && ret == strafter(strtrim(attributes[i].Value), " ")
+//@   modifies nothing
